@@ -82,6 +82,8 @@ func c14Scenarios(quick bool) []c14Scenario {
 		{name: "Context|Cleanup|main Context+Cleanup", threads: [][]string{{"Context"}, {"Cleanup"}}, mainOps: []string{"Context", "Cleanup"}},
 		{name: "CleanupSpawns: cleanup callbacks start goroutines", threads: [][]string{{"CleanupSpawn"}, {"Context"}}},
 		{name: "Failed+Failed|Fail+Failed", threads: [][]string{{"Failed", "Failed"}, {"Fail", "Failed"}}},
+		{name: "CleanupErrorfSpawn|Cleanup: failure from a goroutine started by a cleanup", threads: [][]string{{"CleanupErrorfSpawn"}, {"Cleanup"}}},
+		{name: "CleanupErrorfSpawn|CleanupSpawn|Context", threads: [][]string{{"CleanupErrorfSpawn"}, {"CleanupSpawn"}, {"Context"}}},
 	}
 	if !quick {
 		sc = append(sc,
@@ -101,6 +103,7 @@ type c14Run struct {
 	cleanups map[int]int // id -> times run
 	regs     int
 	lateCtx  []context.Context
+	lateFail bool // a goroutine started by a cleanup signalled a failure
 }
 
 func (r *c14Run) do(t *rapid.T, thread int, op string) {
@@ -150,6 +153,19 @@ func (r *c14Run) do(t *rapid.T, thread int, op string) {
 				t.Cleanup(func() { r.cleanups[id2]++ })
 			})
 			h2 := vsync.Go(func() { r.lateCtx = append(r.lateCtx, t.Context()) })
+			h1.Join()
+			h2.Join()
+		})
+	case "CleanupErrorfSpawn":
+		r.regs++
+		id := r.regs
+		ev.arg = id
+		ev.op = "Cleanup"
+		t.Cleanup(func() {
+			r.cleanups[id]++
+			// cleanup-time failure signalled from another goroutine, racing with Failed() from a second one
+			h1 := vsync.Go(func() { r.lateFail = true; t.Errorf("failure from a goroutine started by cleanup %d", id) })
+			h2 := vsync.Go(func() { _ = t.Failed() })
 			h1.Join()
 			h2.Join()
 		})
@@ -232,7 +248,7 @@ func c14Units(tier string, seed int64) []Unit {
 					viol("not-linearizable", fmt.Sprintf("call/return history has no sequential explanation: %v", outs))
 				}
 				// lost update: any failure signal falsifies the case
-				signalled := false
+				signalled := r.lateFail
 				for _, e := range r.events {
 					if e.op == "Errorf" || e.op == "Error" || e.op == "Fail" {
 						signalled = true
@@ -286,7 +302,7 @@ func init() {
 	Register(&Check{
 		ID:    "C14",
 		Level: "model_checking",
-		Rule: "E3 sched: 13 (quick) / 16 (thorough) scenarios of 2-4 controlled threads x 1-3 calls each from {Errorf, Error, Fail, Failed, Log, Name, Helper, Context, Cleanup, cleanup-that-spawns} on one real *T inside a real checkOnce (optionally while the property's own goroutine draws or calls the same methods, with and without verbose logging); " +
+		Rule: "E3 sched: 15 (quick) / 18 (thorough) scenarios of 2-4 controlled threads x 1-3 calls each from {Errorf, Error, Fail, Failed, Log, Name, Helper, Context, Cleanup, cleanup-that-spawns} on one real *T inside a real checkOnce (optionally while the property's own goroutine draws or calls the same methods, with and without verbose logging); " +
 			"every interleaving at sync-operation granularity within the preemption bound (3 quick, 4 thorough). Oracles per execution: no happens-before race on any instrumented field/element/map access, no deadlock, porcupine-linearizable history, failure never lost, every cleanup exactly once, one live context. " +
 			"distinct = distinct (per-call results, verdict) histories; non-trivial = the schedule contains at least one preemption.",
 		Assumptions: []string{"sequentially consistent interleavings at sync-operation granularity + happens-before race freedom on instrumented accesses (DRF-SC argument); goroutines are joined before the property returns",
